@@ -19,6 +19,9 @@ structure Sess where
   us    : User := {}      -- user state on the spec side
   sparse : Bool := false  -- obs=sparse: used/free are printed by `observe` only
   quiet : Bool := false   -- phys=quiet: the region bytes are printed as a checksum, the full dump on `observe`
+  giant : Bool := false   -- giant=1: the region is untouched reserved address space of several GiB; the model and
+                          -- the spec run with an empty byte list (no operation but calloc/write reads or writes it,
+                          -- `Proofs/StaticPool.lean` `*_withBytes`) and the users never write
 
 
 /-- FNV-1a 64 over the UTF-8 text of a list as the full mode prints it (`phys=quiet`) -/
@@ -33,28 +36,28 @@ def obsM (r : Option StaticPool) : String :=
   match r with | none => "" | some r => s!" used={r.core.usedBytes} free={r.core.freeBytes}"
 def obsS (f : Option Spec.SPool) : String :=
   match f with | none => "" | some f => s!" used={f.used} free={f.free}"
-def phys (r : Option StaticPool) (quiet : Bool := false) : String :=
+def phys (r : Option StaticPool) (quiet : Bool := false) (giant : Bool := false) : String :=
   match r with
   | none => "-"
-  | some r => s!"size={r.core.size} free={r.core.free} high={r.core.high} bytes={if quiet then fnvList r.core.bytes else fmtList r.core.bytes}"
+  | some r => s!"size={r.core.size} free={r.core.free} high={r.core.high} bytes={if giant then "-" else if quiet then fnvList r.core.bytes else fmtList r.core.bytes}"
 /-- `StaticPool.Inv` evaluated in one pass over the block list (the `Decidable` instance recomputes the
 total length of the tail at every block: quadratic, too slow with thousands of live blocks) -/
-def invFast (r : StaticPool) : Bool :=
+def invFast (r : StaticPool) (giant : Bool := false) : Bool :=
   -- fold from the oldest block: running total = expected offset of the next block
   let chk := r.blocks.foldr (fun b (acc : Bool × Nat) => (acc.1 && b.1 == acc.2, acc.2 + b.2)) (true, 0)
-  decide (r.core.free ≤ r.core.size) && decide (r.core.high ≤ r.core.free) && r.core.bytes.length == r.core.size &&
+  decide (r.core.free ≤ r.core.size) && decide (r.core.high ≤ r.core.free) && (giant || r.core.bytes.length == r.core.size) &&
   chk.1 && r.core.free == chk.2 &&
   (if r.undo then (match r.blocks with | b :: _ => b.1 == r.core.high && b.1 + b.2 == r.core.free | [] => false)
    else r.core.free == r.core.high)
-def inv (r : Option StaticPool) : Bool :=
-  match r with | none => true | some r => if r.blocks.length ≤ 32 then decide r.Inv else invFast r
+def inv (r : Option StaticPool) (giant : Bool := false) : Bool :=
+  match r with | none => true | some r => if giant then invFast r true else if r.blocks.length ≤ 32 then decide r.Inv else invFast r
 
 def lineS' (full : Bool) (hd : String) (s : Sess) : String := s!"S {hd}{if full then obsS s.spec else ""}"
 def lineM' (full : Bool) (hd : String) (s : Sess) : String :=
-  s!"M {hd}{if full then obsM s.model else ""} | {phys s.model} | {fmtMem s.mem} | {fmtFlags (inv s.model) s.mem}"
+  s!"M {hd}{if full then obsM s.model else ""} | {phys s.model false s.giant} | {fmtMem s.mem} | {fmtFlags (inv s.model s.giant) s.mem}"
 def lineS (hd : String) (s : Sess) : String := lineS' (!s.sparse) hd s
 def lineM (hd : String) (s : Sess) : String :=
-  s!"M {hd}{if !s.sparse then obsM s.model else ""} | {phys s.model s.quiet} | {fmtMem s.mem} | {fmtFlags (inv s.model) s.mem}"
+  s!"M {hd}{if !s.sparse then obsM s.model else ""} | {phys s.model s.quiet s.giant} | {fmtMem s.mem} | {fmtFlags (inv s.model s.giant) s.mem}"
 
 def freshByte : Nat := 238   -- 0xEE, what the harness fills the region with
 
@@ -70,8 +73,9 @@ def step (s : Sess) (c : Cmd) : Sess × String × String :=
   match c.op with
   | "new" =>
     let size := c.nat "size" 16
-    let bytes := List.replicate size freshByte
-    let s' : Sess := { model := some (StaticPool.new size bytes), spec := some (Spec.SPool.init size bytes), mem := m,
+    let giant := c.nat "giant" 0 != 0
+    let bytes := if giant then [] else List.replicate size freshByte
+    let s' : Sess := { model := some (StaticPool.new size bytes), spec := some (Spec.SPool.init size bytes), mem := m, giant,
                        sparse := (c.str "obs").getD "full" == "sparse", quiet := (c.str "phys").getD "full" == "quiet" }
     (s', lineS (fmtStat .ok) s', lineM (fmtStat .ok) s')
   | _ =>
@@ -88,7 +92,7 @@ def step (s : Sess) (c : Cmd) : Sess × String × String :=
       let (r', m, um) := match p with
         | some a =>
           -- the shim writes only when the block is inside its buffer
-          if a + n ≤ r'.core.size then
+          if !s.giant && a + n ≤ r'.core.size then
             let w := r'.write a n (1 + s.um.pat % 250) m
             (w.1, w.2, { ptrs := s.um.ptrs ++ [p], pat := s.um.pat + 1 : User })
           else (r', m, { s.um with ptrs := s.um.ptrs ++ [p] })
@@ -96,11 +100,14 @@ def step (s : Sess) (c : Cmd) : Sess × String × String :=
       -- spec
       let (q, f') := f.malloc n
       let (f', us) := match q with
-        | some a => (f'.write a n (1 + s.us.pat % 250), { ptrs := s.us.ptrs ++ [q], pat := s.us.pat + 1 : User })
+        | some a =>
+          if s.giant then (f', { s.us with ptrs := s.us.ptrs ++ [q] })
+          else (f'.write a n (1 + s.us.pat % 250), { ptrs := s.us.ptrs ++ [q], pat := s.us.pat + 1 : User })
         | none => (f', { s.us with ptrs := s.us.ptrs ++ [q] })
       let s' : Sess := { s with model := some r', spec := some f', mem := m, um, us }
       (s', lineS ("st=-" ++ fmtPtr q) s', lineM ("st=-" ++ fmtPtr p) s')
     | "calloc" =>
+      if s.giant then (let s' : Sess := { s with mem := m }; (s', lineS "st=- badop" s', lineM "st=- badop" s')) else
       let a := c.arg 0; let b := c.arg 1
       let (p, r', m) := r.calloc a b m
       let n := (a * b) % sizeMod
